@@ -173,8 +173,10 @@ func tail(s string, n int) string {
 	return strings.Join(lines, "\n")
 }
 
-// parseList parses a generated file and returns the declared variable and its elements.
-func parseList(fset *token.FileSet, path string, src []byte) (f *ast.File, varName string, list []string, err error) {
+// parseList parses a Go file and returns its []string list variable. wantVar names the variable
+// expected (when the file declares several list variables); other declarations are ignored — the
+// property only asks for a file that compiles and whose list is the input.
+func parseListNamed(fset *token.FileSet, path string, src []byte, wantVar string) (f *ast.File, varName string, list []string, err error) {
 	f, err = parser.ParseFile(fset, path, src, parser.AllErrors)
 	if err != nil {
 		return nil, "", nil, fmt.Errorf("does not parse: %v", err)
@@ -182,48 +184,59 @@ func parseList(fset *token.FileSet, path string, src []byte) (f *ast.File, varNa
 	if f.Name.Name != "wordlist" {
 		return f, "", nil, fmt.Errorf("declares package %q, want wordlist", f.Name.Name)
 	}
-	found := 0
+	found := map[string][]string{}
+	var names []string
 	for _, d := range f.Decls {
 		gd, ok := d.(*ast.GenDecl)
 		if !ok || gd.Tok != token.VAR {
-			if gd != nil && gd.Tok == token.IMPORT {
-				continue
-			}
-			return f, "", nil, fmt.Errorf("unexpected declaration at %v", fset.Position(d.Pos()))
+			continue
 		}
 		for _, sp := range gd.Specs {
 			vs := sp.(*ast.ValueSpec)
-			if len(vs.Names) != 1 || len(vs.Values) != 1 {
-				return f, "", nil, fmt.Errorf("unexpected var spec at %v", fset.Position(vs.Pos()))
-			}
-			cl, ok := vs.Values[0].(*ast.CompositeLit)
-			if !ok {
-				return f, "", nil, fmt.Errorf("%s is not a composite literal", vs.Names[0].Name)
-			}
-			at, ok := cl.Type.(*ast.ArrayType)
-			if !ok || at.Len != nil || fmt.Sprint(at.Elt) != "string" {
-				return f, "", nil, fmt.Errorf("%s is not a []string literal", vs.Names[0].Name)
-			}
-			found++
-			varName = vs.Names[0].Name
-			list = []string{}
-			for _, e := range cl.Elts {
-				bl, ok := e.(*ast.BasicLit)
-				if !ok || bl.Kind != token.STRING {
-					return f, "", nil, fmt.Errorf("element at %v is not a string literal", fset.Position(e.Pos()))
+			for vi, name := range vs.Names {
+				if vi >= len(vs.Values) {
+					continue
 				}
-				s, uerr := strconv.Unquote(bl.Value)
-				if uerr != nil {
-					return f, "", nil, fmt.Errorf("element %s: %v", bl.Value, uerr)
+				cl, ok := vs.Values[vi].(*ast.CompositeLit)
+				if !ok {
+					continue
 				}
-				list = append(list, s)
+				at, ok := cl.Type.(*ast.ArrayType)
+				if !ok || at.Len != nil || fmt.Sprint(at.Elt) != "string" {
+					continue
+				}
+				lst := []string{}
+				for _, e := range cl.Elts {
+					bl, ok := e.(*ast.BasicLit)
+					if !ok || bl.Kind != token.STRING {
+						return f, "", nil, fmt.Errorf("element of %s at %v is not a string literal", name.Name, fset.Position(e.Pos()))
+					}
+					s, uerr := strconv.Unquote(bl.Value)
+					if uerr != nil {
+						return f, "", nil, fmt.Errorf("element %s of %s: %v", bl.Value, name.Name, uerr)
+					}
+					lst = append(lst, s)
+				}
+				found[name.Name] = lst
+				names = append(names, name.Name)
 			}
 		}
 	}
-	if found != 1 {
-		return f, "", nil, fmt.Errorf("declares %d list variables, want exactly 1", found)
+	if lst, ok := found[wantVar]; ok {
+		return f, wantVar, lst, nil
 	}
-	return f, varName, list, nil
+	if len(names) == 0 {
+		return f, "", nil, fmt.Errorf("declares no []string list variable")
+	}
+	return f, names[0], found[names[0]], nil
+}
+
+func parseList(fset *token.FileSet, path string, src []byte) (*ast.File, string, []string, error) {
+	want := ""
+	if l, ok := ref.LangByFile(strings.TrimSuffix(filepath.Base(path), ".go")); ok {
+		want = l.Name()
+	}
+	return parseListNamed(fset, path, src, want)
 }
 
 func firstListDiff(got, want []string) string {
@@ -336,7 +349,7 @@ var c17Check = register("C17", "c17.tool", func(c *toolCase) error {
 		}
 	}
 	// "compiles": the ten files type-check together as one package
-	conf := types.Config{Importer: importer.Default()}
+	conf := types.Config{Importer: importer.ForCompiler(fset, "source", nil)}
 	if _, terr := conf.Check("wordlist", fset, asts, nil); terr != nil {
 		return failf(sig+" does-not-compile", "the generated package does not type-check: %v", terr)
 	}
